@@ -37,7 +37,9 @@ fn op_json(op: &Op) -> J {
 fn hist_json(h: &[Op]) -> J { J::Arr(h.iter().map(op_json).collect()) }
 
 /// runs one history against one fringe; returns (violation, coalesced_then_popped)
-fn run_history(h: &[Op], nodup: bool) -> (Option<(&'static str, String)>, bool) {
+/// `share`: pushes of equal states share one `Arc` (as clones of a sub-problem do); otherwise every push allocates its own
+fn run_history(h: &[Op], nodup: bool, share: bool) -> (Option<(&'static str, String)>, bool) {
+    let mut arcs: Vec<Option<Arc<u8>>> = vec![None; 256];
     let rank = Rank;
     let mut simple;
     let mut nd;
@@ -73,7 +75,8 @@ fn run_history(h: &[Op], nodup: bool) -> (Option<(&'static str, String)>, bool) 
         match *op {
             Op::Push { s, d, v, ub } => {
                 let id = step;
-                let sp = SubProblem { state: Arc::new(s), value: v as isize, path: vec![Decision { variable: Variable(id), value: id as isize }], ub: ub as isize, depth: d as usize };
+                let st = if share { arcs[s as usize].get_or_insert_with(|| Arc::new(s)).clone() } else { Arc::new(s) };
+                let sp = SubProblem { state: st, value: v as isize, path: vec![Decision { variable: Variable(id), value: id as isize }], ub: ub as isize, depth: d as usize };
                 fr.push(sp);
                 if nodup {
                     if let Some(e) = model.iter_mut().find(|e| e.s == s && e.d == d) {
@@ -125,8 +128,8 @@ fn alphabet() -> Vec<Op> {
 
 fn judge(h: &[Op], a: &mut Acc, exhaustive: bool) {
     tick();
-    for nodup in [false, true] {
-        let (viol, nt) = match std::panic::catch_unwind(|| run_history(h, nodup)) {
+    for (nodup, share) in [(false, false), (true, false), (false, true), (true, true)] {
+        let (viol, nt) = match std::panic::catch_unwind(|| run_history(h, nodup, share)) {
             Ok(r) => r,
             Err(_) => {
                 let p = crate::runner::take_panics();
@@ -139,12 +142,12 @@ fn judge(h: &[Op], a: &mut Acc, exhaustive: bool) {
         };
         a.evaluations += 1;
         if nt {
-            if exhaustive { a.nt_extra += 1; } else { a.nontrivial.insert(hash_of(&(h, nodup))); }
+            if exhaustive { a.nt_extra += 1; } else { a.nontrivial.insert(hash_of(&(h, nodup, share))); }
             if a.samples.len() < 3 && h.len() >= 5 { a.sample(J::obj().set("fringe", J::s("NoDupFringe")).set("history", hist_json(h))); }
         }
         if let Some((clause, msg)) = viol {
-            a.violation(PROP, clause, msg, J::obj().set("fringe", J::s(if nodup { "nodup" } else { "simple" })),
-                J::obj().set("kind", J::s("history")).set("fringe", J::s(if nodup { "nodup" } else { "simple" })).set("history", hist_json(h)).set("history_raw", J::Arr(h.iter().map(raw).collect())));
+            a.violation(PROP, clause, msg, J::obj().set("fringe", J::s(if nodup { "nodup" } else { "simple" })).set("equal_states_share_one_arc", J::Bool(share)),
+                J::obj().set("kind", J::s("history")).set("fringe", J::s(if nodup { "nodup" } else { "simple" })).set("equal_states_share_one_arc", J::Bool(share)).set("history", hist_json(h)).set("history_raw", J::Arr(h.iter().map(raw).collect())));
         }
     }
 }
